@@ -30,19 +30,16 @@ theorem decorate_controls (lists : List Str) (n : Nat) (r : Cells) (k : RowK) (p
       · rename_i k0 hk0
         split at h
         · cases h
-        · cases h
         · split at h
+          · injection h with h; injection h with h1 h2; subst h1
+            exact Or.inl ⟨_, rfl⟩
           · cases h
-          · split at h
-            · injection h with h; injection h with h1 h2; subst h1
-              exact Or.inl ⟨_, rfl⟩
-            · cases h
-          · rename_i cs hcs
-            injection h with h; injection h with h1 h2; subst h1; subst h2
-            obtain ⟨k', ps, hk', _, _, hout⟩ := rowControls_out lists n r cs hcs
-            obtain ⟨k'', hk'', htags⟩ := rowControls_aligned lists n r cs hcs
-            rw [hk'] at hk''; injection hk'' with hk''; subst hk''
-            exact Or.inr ⟨cs, k', ps, hcs, rfl, rfl, hk0, hk', hout, htags⟩
+        · rename_i cs hcs
+          injection h with h; injection h with h1 h2; subst h1; subst h2
+          obtain ⟨k', ps, hk', _, _, hout⟩ := rowControls_out lists n r cs hcs
+          obtain ⟨k'', hk'', htags⟩ := rowControls_aligned lists n r cs hcs
+          rw [hk'] at hk''; injection hk'' with hk''; subst hk''
+          exact Or.inr ⟨cs, k', ps, hcs, rfl, rfl, hk0, hk', hout, htags⟩
 
 -- non-vacuity: a text row with an appearance is decorated with exactly that attribute; a begin repeat with its own
 example : (match Convert.decorate [] 2 [(k!"type", k!"text"), (k!"name", k!"a"), (k!"label", k!"A"),
